@@ -222,6 +222,10 @@ type pathRef struct {
 	obj  types.Object
 	segs []seg
 	side []ast.Expr
+	// aliasLen is the number of leading segments that come from a local
+	// variable holding a copy of a pointer read earlier (x := s.f): using x
+	// touches what it points to, not the field s.f again.
+	aliasLen int
 }
 
 type analysis struct {
